@@ -4,6 +4,8 @@ patch="$1"; shift
 git -C /repo apply "$patch" || exit 9
 trap 'git -C /repo checkout -- . ; git -C /repo status --short' EXIT
 for p in "$@"; do
-  /verif/check "$p" --tier quick 2>&1 | grep -E "^\[|VIOLATION|KNOWN|UNDECIDED|OUT-OF|CONTRACT|CRASH|BOUNDED" | cut -c1-400
-  echo "exit=$? ($p)"
+  /verif/check "$p" --tier quick > /tmp/try_seed.$$.log 2>&1; rc=$?
+  grep -E "^\[|VIOLATION|KNOWN|UNDECIDED|OUT-OF|CONTRACT|CRASH|BOUNDED" /tmp/try_seed.$$.log | cut -c1-300 | head -12
+  echo "exit=$rc ($p) $patch"
 done
+rm -f /tmp/try_seed.$$.log
